@@ -40,9 +40,9 @@ func (r *Rng) Intn(n int) int {
 	}
 	return int(r.U64() % uint64(n))
 }
-func (r *Rng) Bool() bool      { return r.U64()&1 == 1 }
-func (r *Rng) Pct(p int) bool  { return r.Intn(100) < p }
-func (r *Rng) Pick(n int) int  { return r.Intn(n) }
+func (r *Rng) Bool() bool     { return r.U64()&1 == 1 }
+func (r *Rng) Pct(p int) bool { return r.Intn(100) < p }
+func (r *Rng) Pick(n int) int { return r.Intn(n) }
 func (r *Rng) Bytes(n int) []byte {
 	b := make([]byte, n)
 	for i := range b {
@@ -104,6 +104,13 @@ func (c *Ctx) Eval(canon string, nontrivial bool) {
 		h := sha256.Sum256([]byte(canon))
 		c.distinct[hex.EncodeToString(h[:8])] = true
 	}
+}
+
+// Breadcrumb records the case about to run, so that a crash of the whole process (fatal
+// runtime error, out of memory) can be attributed to an input by the orchestrator.
+func (c *Ctx) Breadcrumb(v interface{}) {
+	b, _ := json.Marshal(v)
+	os.WriteFile(filepath.Join(c.OutDir, "current.json"), b, 0o644)
 }
 
 func (c *Ctx) Sample(s interface{}) {
